@@ -64,6 +64,9 @@ PROFILES = {
     # overlapping covers: a graph composed with each of its induced subgraphs, in both orders (C17)
     "K5": (P("SCRG", 4, 0, "stereo", False, ["subgraph", "compose"], "none", True, subsets="all", follow="none"),
            P("SCRG", 4, 1, "stereo", False, ["subgraph", "compose"], "none", True, subsets="all", follow="none")),
+    # mixed classes: a reaction graph composed with its own reactant / product / converted copy, in both orders (C17)
+    "K6": (P("SCRG", 4, 0, "stereo", False, ["reactant", "product", "copy_ctor", "compose"], "none", True, follow="none"),
+           P("SCRG", 4, 1, "stereo", False, ["reactant", "product", "copy_ctor", "compose"], "none", True, follow="none")),
     # subgraph / compose / components (C17)
     "S1": (P("MG", 3, 0, "gen", True, ALGEBRA, "none", True, subsets="all"),
            P("MG", 3, 1, "gen", True, ALGEBRA, "none", True, subsets="all")),
@@ -83,7 +86,7 @@ PROP_PROFILES = {
     "C19": ["E1", "E2", "E3", "E4"],
     "C10": ["D1", "D2", "D3", "D4", "S3", "S4", "K3", "K4"],
     "C11": ["R5", "R6", "R1", "R2", "R3", "R4"],
-    "C17": ["K5", "S1", "S2", "S3", "S4", "K4"],
+    "C17": ["K5", "K6", "S1", "S2", "S3", "S4", "K4"],
     "C06": ["X3", "X4"],
     "C15": ["J1", "J2", "J3", "J4"],
     "C08": ["V2", "V4"],
